@@ -37,7 +37,7 @@ def tla_seq(x):
 
 def mc_files(ix, case, emit):
     name = "AllocConc_MC_%d" % ix
-    d = os.path.join(C.OUT, "cfg")
+    d = os.path.join(C.OUT, "cfg", "p%d" % os.getpid())
     os.makedirs(d, exist_ok=True)
     with open(os.path.join(C.SPEC, "AllocConc_L1.tla")) as f:
         src = f.read()
@@ -154,7 +154,7 @@ def check(prop, tier, seed):
             progs.append(prog)
         scripts.append({"tid": tid, "mode": "free", "alive_ids": alive, "free_seq": free, "progs": progs, "schedule": []})
         tid += 1
-    workdir = os.path.join(C.OUT, "work", key)
+    workdir = os.path.join(C.OUT, "work", "%s_%d" % (key, os.getpid()))
     C.sh(["rm", "-rf", workdir])
     r = C.exec_and_validate("conc", scripts, workdir, "Conc_Trace.tla", "Conc_Trace.cfg", events_per_chunk=300)
     res.update(n_scripts=r["n_scripts"], n_events=r["n_events"], wall_s=r["wall_s"])
